@@ -45,11 +45,11 @@ ANCHORS = ['debian._deb822_repro.parsing:Deb822NoDuplicateFieldsParagraphElement
 MUST_REACH = ANCHORS
 FLOORS = {'quick': {'nontrivial': 1200, 'monitors': {'M.step': 8000, 'M.index': 8000, 'M.reparse': 8000, 'K3': 3000, 'K4': 3000, 'K6': 5000},
                     'counters': {'op:order_first': 500, 'op:order_after': 500, 'op:insert': 300, 'op:append': 300,
-                                 'dup-moved-together': 150, 'placed-after-unterminated-last-field': 60, 'big-document': 8}},
+                                 'dup-moved-together': 150, 'placed-after-unterminated-last-field': 60, 'big-document': 8, 'new-paragraph-equal-in-content-to-an-existing-one': 250}},
           'thorough': {'nontrivial': 80000, 'monitors': {'M.step': 500000, 'M.index': 500000, 'M.reparse': 500000, 'K3': 200000,
                                                          'K4': 200000, 'K6': 300000},
                        'counters': {'op:order_first': 30000, 'op:order_after': 30000, 'op:insert': 20000, 'op:append': 20000,
-                                    'dup-moved-together': 10000, 'placed-after-unterminated-last-field': 4000, 'big-document': 1200}}}
+                                    'dup-moved-together': 10000, 'placed-after-unterminated-last-field': 4000, 'big-document': 1200, 'new-paragraph-equal-in-content-to-an-existing-one': 25000}}}
 LEVEL_TEXT = ('Runtime monitoring: seeded histories of structural operations on live format-preserving documents; after every '
               'operation the dump is compared with a whole-field reference list model (unique ids identify every field), the '
               '(name, i) index of the live paragraph is compared with document order, a fresh parse is compared with the model, '
@@ -111,6 +111,10 @@ def cases(ctx):
         names = [[f['name'] for f in p] for p in doc['paras']]
         dupflag = [len({f['name'].lower() for f in p}) < len(p) for p in doc['paras']]
         ops = []
+        # a NEW paragraph may have exactly the content of one that is already there (a stanza cloned before it is edited,
+        # the same generated paragraph added twice): content equality is not identity
+        clones = [[[f['name'], f['value']] for f in p] for p in doc['paras']
+                  if not big and len({f['name'].lower() for f in p}) == len(p) and all(f['value'].strip() and not f['value'].startswith('#') for f in p)]
         for _ in range(r.randint(1, 8)):
             pi = r.randrange(len(names))
             nm = names[pi]
@@ -135,12 +139,14 @@ def cases(ctx):
                 ops.append(['del', pi, gen_key(r, nm, isdup)])
             elif k < .90:
                 idx = r.choice([0, 0, 1, 2, len(names), len(names) + 3, r.randint(0, len(names))])
-                newp = gen_newpara(r, ids)
+                newp = gen_newpara(r, ids) if r.random() < .7 or not clones else [list(x) for x in r.choice(clones)]
+                clones.append(newp)
                 ops.append(['insert', idx, newp])
                 dupflag.insert(min(idx, len(names)), False)
                 names.insert(min(idx, len(names)), [x[0] for x in newp])
             else:
-                newp = gen_newpara(r, ids)
+                newp = gen_newpara(r, ids) if r.random() < .7 or not clones else [list(x) for x in r.choice(clones)]
+                clones.append(newp)
                 ops.append(['append', 0, newp])
                 names.append([x[0] for x in newp])
                 dupflag.append(False)
@@ -474,6 +480,12 @@ def _insert(ctx, step, op, f, model, paras, before, Deb822ParagraphElement):
     para = Deb822ParagraphElement.new_empty_paragraph()
     for n, v in newfields:
         para[n] = v
+    try:
+        from debian._deb822_repro.parsing import Deb822DuplicateFieldsParagraphElement
+        if any(dict(para.items()) == dict(q.items()) for q in paras if not isinstance(q, Deb822DuplicateFieldsParagraphElement)):
+            ctx.count('new-paragraph-equal-in-content-to-an-existing-one')
+    except Exception:
+        pass
     xfields = []
     for kv, (n, v) in zip(para.iter_parts(), newfields):
         xfields.append({'name': n, 'comments': '', 'body': kv.convert_to_text(), 'value': v, 'id': 'n%d' % step})
